@@ -94,13 +94,12 @@ pub trait AggValidFinal<T: IsNone>: Vec1View<T> {
             let corr: f64 = self
                 .titer()
                 .vcorr_pearson(self.titer().vshift(life as i32, None), min_periods);
-            if corr < 0.5 {
-                (last_n, n) = (last_n, life);
-            } else if corr > 0.5 {
-                (last_n, n) = (life, last_n);
-            } else {
+            // same test as in the doubling phase: `life` is either still above 0.5
+            // (move the lower end up) or not (move the upper end down)
+            if (corr <= 0.5) || corr.is_nan() {
                 n = life;
-                break;
+            } else {
+                last_n = life;
             }
         }
         n
